@@ -51,10 +51,33 @@ class TaskPool(pipe.SyncPool):
         super().__init__()
         self.items = []
 
-    def amap(self, fn, items):
-        items = list(items)
+    def observe(self, items):
         self.items.extend(items)
-        return super().amap(fn, items)
+
+
+def _as_pair(item):
+    # a submitted task, whatever wrapping the product gives it (the pair itself, or the pair next to a position / chunk id)
+    if isinstance(item, (tuple, list)) and len(item) == 2 and all(isinstance(x, str) for x in item):
+        return tuple(item)
+    if isinstance(item, (tuple, list)):
+        inner = [p for p in (_as_pair(x) for x in item) if p is not None]
+        if len(inner) == 1:
+            return inner[0]
+    return None
+
+
+def evaluated_pairs(pool, out_rows, keys):
+    """Which candidates were actually evaluated in a call: the tasks submitted to the pool when they can be read as column pairs,
+    otherwise the rows that came back (each evaluation of candidate (a, b) yields one row (a, b, s) and its mirror)."""
+    pairs = [_as_pair(it) for it in pool.items]
+    if pool.items and all(p is not None for p in pairs):
+        return Counter(pairs)
+    rows = Counter((a, b) for a, b, _ in out_rows)
+    ev = Counter()
+    for k in keys:
+        if len(k) == 2 and rows.get(tuple(k)):
+            ev[tuple(k)] = rows[tuple(k)] // (2 if k[0] == k[1] else 1)
+    return ev
 
 
 class SamplerMonitor:
@@ -219,7 +242,7 @@ def shard_pipeline(sh, part):
         pool = TaskPool()
         ok, out = sh.call('returned-are-candidates', 'mixed_rank_graph', cr.mixed_rank_graph, df, args, pool, pipe.NullPbar())
         if ok:
-            evaluated = Counter(pool.items) if args.heuristic != 'Constant' else Counter((a, b_) for a, b_, _ in out.triplet_scores)
+            evaluated = evaluated_pairs(pool, out.triplet_scores, list(cr.GLOBAL_PRIOR_COMB_COUNTS)) if args.heuristic != 'Constant' else Counter((a, b_) for a, b_, _ in out.triplet_scores)
             total_evaluated.update(evaluated)
             after = Counter(cr.GLOBAL_PRIOR_COMB_COUNTS)
             delta = {k: after[k] - before.get(k, 0) for k in after if after[k] - before.get(k, 0)}
@@ -291,9 +314,13 @@ def shard_export(sh, part):
         nz = {k: v for k, v in exported.items() if v}
         sh.check('exported-counts=selections', nz == {k: v for k, v in logged.items() if v} and mon.calls > 0, 'exported-counts!=selections-made',
                  lambda: {'exported': dict(list(exported.items())[:20]), 'logged': dict(list(logged.items())[:20]), 'calls': mon.calls})
-        evaluated = {str(k): v for k, v in Counter(pool.items).items()}
-        sh.check('reported-counts=evaluations', nz == evaluated and len(evaluated) > 0, 'exported-counts!=pairs-actually-evaluated',
-                 lambda: {'cap': cap, 'candidates': nfeat + 1, 'exported': dict(list(nz.items())[:20]), 'evaluated_at_pool': dict(list(evaluated.items())[:20])})
+        pairs = [_as_pair(it) for it in pool.items]
+        if pairs and all(p_ is not None for p_ in pairs):
+            evaluated = {str(k): v for k, v in Counter(pairs).items()}
+            sh.check('reported-counts=evaluations', nz == evaluated and len(evaluated) > 0, 'exported-counts!=pairs-actually-evaluated',
+                     lambda: {'cap': cap, 'candidates': nfeat + 1, 'exported': dict(list(nz.items())[:20]), 'evaluated_at_pool': dict(list(evaluated.items())[:20])})
+        else:
+            sh.notes['pool_tasks_unreadable'] = 'the tasks submitted to the pool could not be read as column pairs: exported counts compared with the logged selections only'
         sh.case(('export', run, part, nfeat, rows, bs), True, 'export/' + ('returned-copy' if run % 2 == 0 else 'json-file'),
                 sample={'rows': rows, 'batch': bs, 'features': nfeat, 'sampler_calls': mon.calls, 'exported_head': dict(list(exported.items())[:5])})
 
